@@ -237,6 +237,13 @@ impl<T: Spec, R: Read> Rd<T, R> {
 
 /// Read everything from `src` until the first error or the end; bounded item count.
 pub fn read_from<T: Spec, R: Read>(src: R, cfg: &ReadCfg, max_items: usize) -> Vec<Obs> {
+    read_from_past::<T, R>(src, cfg, max_items, 0)
+}
+
+/// like `read_from`, but keeps calling next() after up to `past` CorruptedTagData errors (the element with the undecodable payload has
+/// been consumed, iteration goes on behind it)
+pub fn read_from_past<T: Spec, R: Read>(src: R, cfg: &ReadCfg, max_items: usize, past: usize) -> Vec<Obs> {
+    let mut data_errors = 0;
     let mut out = Vec::new();
     let mut rd = match Rd::<T, R>::new(src, cfg) {
         Ok(r) => r,
@@ -252,8 +259,12 @@ pub fn read_from<T: Spec, R: Read>(src: R, cfg: &ReadCfg, max_items: usize) -> V
                 }
             }
             Step::Err(e) => {
+                let go_on = matches!(e, ErrK::TagData { .. }) && data_errors < past;
                 out.push(Obs::Err(e));
-                return out;
+                if !go_on {
+                    return out;
+                }
+                data_errors += 1;
             }
             Step::Done => return out,
             Step::Panic(p) => {
